@@ -74,6 +74,9 @@ int main(int argc, char **argv)
                         fputc(',', f);
                         put_value(f, ldexp((double)a_real_norm((a_size)n, s), -e));
                     }
+                    /* the fixed-arity norms on the same scaled data */
+                    if (n == 2) { fputc(',', f); put_value(f, ldexp((double)a_real_norm2(s[0], s[c]), -e)); }
+                    if (n == 3) { fputc(',', f); put_value(f, ldexp((double)a_real_norm3(s[0], s[c], s[2 * c]), -e)); }
                 }
                 fputs("],\"norm2\":", f); put_value(f, n == 2 ? (double)a_real_norm2(p[0], p[c]) : 0.0);
                 fputs(",\"norm3\":", f); put_value(f, n == 3 ? (double)a_real_norm3(p[0], p[c], p[2 * c]) : 0.0);
